@@ -336,10 +336,11 @@ func minimiseC28(v Violation) Violation {
 		return v
 	}
 	fails := func(cand *lockCase) bool {
-		vs, _, _ := runLockCase(cand)
+		vs, _, h := runLockCase(cand)
 		for _, x := range vs {
 			if x.Class == v.Class {
 				v.Msg = x.Msg
+				v.Hash = h
 				return true
 			}
 		}
